@@ -8,6 +8,7 @@ import JunoModel.C19.ProofsLive
 import JunoModel.C19.ProofsTasks
 import JunoModel.C19.ProofsHash
 import JunoModel.C19.ProofsCache
+import JunoModel.C19.ProofsR5
 /-!
 C19 — property theorems (statements only; the proofs are one-line calls into `Proofs*.lean`).
 
@@ -813,6 +814,206 @@ theorem processor_panicked_on_keyless_publisher_before_fix_76dcbab [DecidableEq 
     (procStep cfg pc f rs sg s p u sender).2 = .panic :=
   procStep_panics_on_keyless_publisher cfg pc hpin f rs sg s p u sender li hnf hnew hsi hkey
 
+
+/-! ## 11. Round 5: look-ups as the code performs them, proof lengths, whole runs, refusals -/
+
+/-- `publisher_lookup_is_binary_search` — `Scheduler.publisherIndex` is `slices.BinarySearchFunc` over the
+sorted peers; the theorems of §5–§7 speak of `List.idxOf?`. For every scheduler `NewScheduler` makes they
+are the same function: a committee member is found, at the position that holds it; a peer OUTSIDE the
+committee is refused whatever insertion position the search computed (first, middle, one past the end);
+and `PeerForShardIndex` / `ShardIndexForPublisher` written with the search are the functions of §7.
+(The look-up is a pure function of the peer list: asking twice gives the same answer.) -/
+theorem publisher_lookup_is_binary_search (id : Bytes) (nodes : List Bytes) (s : Sched)
+    (hs : newScheduler id nodes = .ok s) (pub : Bytes) :
+    (pub ∈ nodes → ∃ i, publisherIndexGo s.peers pub = .ok i ∧ s.peers[i]? = some pub) ∧
+    (pub ∉ nodes → publisherIndexGo s.peers pub = .error .publisherUnknown) ∧
+    (∀ idx, s.peerForShardGo pub idx = s.peerForShard pub idx) ∧
+    s.shardIndexForGo pub = s.shardIndexFor pub := by
+  obtain ⟨_, hlt, _, _, _, _, _, _, _, _, hmem⟩ := newScheduler_spec id nodes s hs
+  have hle := sortedLe_of_sortedLt s.peers hlt
+  refine ⟨fun hp => ?_, fun hp => ?_, fun idx => peerForShardGo_eq s hle pub idx, shardIndexForGo_eq s hle pub⟩
+  · rw [publisherIndexGo_eq s.peers pub hle]
+    cases hi : s.peers.idxOf? pub with
+    | none => exact absurd ((hmem pub).mpr hp) (List.idxOf?_eq_none_iff.mp hi)
+    | some i =>
+      obtain ⟨hl, hg, _⟩ := List.idxOf?_eq_some_iff.mp hi
+      exact ⟨i, rfl, by rw [List.getElem?_eq_getElem hl, hg]⟩
+  · rw [publisherIndexGo_eq s.peers pub hle, List.idxOf?_eq_none_iff.mpr (fun h => hp ((hmem pub).mp h))]
+
+/-- `binary_search_spec` — `slices.BinarySearchFunc(x, t, cmp.Compare)` on ANY sorted list (duplicates
+allowed: `NewScheduler` searches for the local id before it checks for duplicates): the returned
+position splits the list into the elements `< t` and the elements `≥ t`, `found` is exactly `t ∈ x`. -/
+theorem binary_search_spec (x : List Bytes) (t : Bytes) (hs : SortedLe x) :
+    (binSearch x t).1 ≤ x.length ∧
+    (∀ a, a < (binSearch x t).1 → lexLt (x.getD a []) t = true) ∧
+    (∀ b, (binSearch x t).1 ≤ b → b < x.length → lexLt (x.getD b []) t = false) ∧
+    ((binSearch x t).2 = true ↔ t ∈ x) :=
+  ⟨(binSearch_spec x t hs).1, (binSearch_spec x t hs).2.1, (binSearch_spec x t hs).2.2.1, (binSearch_spec x t hs).2.2.2.1⟩
+
+/-- `outsider_publisher_is_refused` — "a unit whose … committee or sender does not match is rejected":
+in every state in which stored subprocessors belong to routable publishers (every reachable state:
+`processor_safe_over_all_runs`), a unit naming a publisher OUTSIDE the committee — for a key that is not
+finalized — is refused by `ProcessMessage` (`noRoute`), and nothing at all changes: no subprocessor, no
+task slot, no cache entry; the same unit again is refused again. The origin check refuses such a
+publisher for every index and sender as well. -/
+theorem outsider_publisher_is_refused [DecidableEq H] (b : Bounds) (cfg : Cfg) (f : HashFns H) (rs : RS)
+    (sg : SigScheme H) (id : Bytes) (nodes : List Bytes) (s : Sched) (hs : newScheduler id nodes = .ok s)
+    (tp : TProc H) (hr : SubsRoutable s tp.core) (u : PUnit H) (sender : Bytes)
+    (hout : u.publisher ∉ nodes) (hnf : tp.core.finalized.contains (keyOf u) = false) :
+    tprocStep b cfg PCfg.current f rs sg s tp u sender = (tp, .noRoute) ∧
+    refusalOf b PCfg.current sg s tp u = some .publisherUnknown ∧
+    ∀ idx snd, ∃ e, s.validateOrigin snd u.publisher idx = .error e := by
+  obtain ⟨_, _, _, _, _, _, _, _, hid, hloc, hmem⟩ := newScheduler_spec id nodes s hs
+  have hnm : ¬ u.publisher ∈ s.peers := fun h => hout ((hmem _).mp h)
+  have hidx : s.peers.idxOf? u.publisher = none := List.idxOf?_eq_none_iff.mpr hnm
+  have hlocal : s.localId ≠ u.publisher := by
+    intro e
+    apply hnm
+    rw [← e, hid]
+    obtain ⟨hl, hg, _⟩ := List.idxOf?_eq_some_iff.mp hloc
+    rw [← hg]; exact List.getElem_mem hl
+  have hsi : s.shardIndexFor (keyOf u).publisher = .error .publisherUnknown := by
+    show s.shardIndexFor u.publisher = _
+    unfold Sched.shardIndexFor
+    rw [if_neg hlocal, hidx]
+  have hfs : tp.core.findSub (keyOf u) = none := by
+    cases h : tp.core.findSub (keyOf u) with
+    | none => rfl
+    | some st =>
+      obtain ⟨li, hli⟩ := hr (keyOf u) st h
+      rw [hsi] at hli; cases hli
+  have href : refusalOf b PCfg.current sg s tp u = some .publisherUnknown := by
+    unfold refusalOf
+    rw [hnf, hfs, hsi]
+    rfl
+  refine ⟨refusal_some_is_noroute b cfg PCfg.current rfl f rs sg s tp u sender _ href, href, ?_⟩
+  intro idx snd
+  unfold Sched.validateOrigin
+  by_cases h1 : snd = s.localId
+  · exact ⟨_, by rw [if_pos h1]⟩
+  · rw [if_neg h1]
+    by_cases h2 : u.publisher = s.localId
+    · exact ⟨_, by rw [if_pos h2]⟩
+    · rw [if_neg h2]
+      unfold Sched.peerForShard
+      by_cases h3 : idx ≥ s.total
+      · exact ⟨_, by rw [if_pos h3]⟩
+      · exact ⟨_, by rw [if_neg h3, hidx]⟩
+
+/-- `merkle_proof_length` — proof-length arithmetic, for EVERY number of leaves: `nextPowerOfTwo` as the
+code computes it (`1 << bits.Len(n-1)`, 2 for n ≤ 2) is the padded tree size of the model; every proof
+`merkle.New` returns has exactly one sibling per level, `bits.Len(size - 1)` of them, at least one — a
+tree of a SINGLE leaf (a committee of two peers) is padded to two leaves and its proof is the one
+empty-leaf sibling, not the empty proof. -/
+theorem merkle_proof_length (f : HashFns H) (leaves : List Bytes) (i : Nat) (hi : i < leaves.length) :
+    nextPow2Go leaves.length = nextPow2 leaves.length ∧
+    2 ^ ((merkleNew f leaves).2.getD i []).length = nextPow2Go leaves.length ∧
+    ((merkleNew f leaves).2.getD i []).length = proofDepthGo leaves.length ∧
+    1 ≤ ((merkleNew f leaves).2.getD i []).length :=
+  ⟨nextPow2Go_eq _, (merkleNew_proof_length f leaves i hi).1, (merkleNew_proof_length f leaves i hi).2.1,
+   (merkleNew_proof_length f leaves i hi).2.2⟩
+
+/-- `proof_length_for_every_committee` — for every committee `NewScheduler` accepts (N ≥ 2 peers, N − 1
+shards): every unit of CreatePropellerUnits carries a proof of `proofDepthGo (N-1)` siblings with
+`2 ^ len = nextPowerOfTwo(N-1)`; for N = 2 (one data shard, no parity, ONE leaf) that is 1, for N = 3
+it is 1, for N = 4 and 5 it is 2. -/
+theorem proof_length_for_every_committee (f : HashFns H) (rs : RS) (sg : SigScheme H)
+    (id : Bytes) (nodes : List Bytes) (s : Sched) (hs : newScheduler id nodes = .ok s)
+    (C P : Bytes) (nonce : Nat) (msg : Bytes) (hl : RSLaws rs s.k s.c) (hin : PadInput msg s.k)
+    (i : Nat) (hi : i < s.k + s.c) :
+    (honestUnit Cfg.current f rs sg C P nonce msg s.k s.c i).proof.length = proofDepthGo (nodes.length - 1) ∧
+    2 ^ (honestUnit Cfg.current f rs sg C P nonce msg s.k s.c i).proof.length = nextPow2Go (nodes.length - 1) ∧
+    1 ≤ (honestUnit Cfg.current f rs sg C P nonce msg s.k s.c i).proof.length ∧
+    proofDepthGo 1 = 1 ∧ proofDepthGo 2 = 1 ∧ proofDepthGo 3 = 2 ∧ proofDepthGo 4 = 2 ∧ proofDepthGo 5 = 3 := by
+  obtain ⟨_, _, _, hpl, _, htot, _, _, _, _, _⟩ := newScheduler_spec id nodes s hs
+  obtain ⟨_, _, hlen, _⟩ := encOf_spec rs msg s.k s.c hl hin
+  have hn : nodes.length - 1 = ((encOf rs msg s.k s.c).map (leafOf Cfg.current.shardingLeafProto)).length := by
+    rw [List.length_map, hlen]; unfold Sched.total at htot; omega
+  have h := merkleNew_proof_length f ((encOf rs msg s.k s.c).map (leafOf Cfg.current.shardingLeafProto)) i
+    (by rw [List.length_map, hlen]; exact hi)
+  rw [← hn] at h
+  have hp : (honestUnit Cfg.current f rs sg C P nonce msg s.k s.c i).proof =
+      (merkleNew f ((encOf rs msg s.k s.c).map (leafOf Cfg.current.shardingLeafProto))).2.getD i [] := by
+    simp [honestUnit, treeOf]
+  rw [hp]
+  refine ⟨h.2.1, h.1, h.2.2, ?_, ?_, ?_, ?_, ?_⟩ <;> decide
+
+/-- … and on the receiving side (ideal hash): a unit the validator ACCEPTS carries a proof of exactly
+that length — a sender cannot choose the length. -/
+theorem accepted_proof_has_tree_depth [DecidableEq H] (cfg : Cfg) (f : HashFns H) (hI : Ideal f)
+    (sg : SigScheme H) (s : Sched) (publisher : Bytes) (st st' : VState) (u : PUnit H) (sender : Bytes)
+    (enc : List Bytes) (hne : enc ≠ []) (htotal : s.total = enc.length)
+    (hroot : u.root = (merkleNew f (enc.map (leafOf cfg.validatorLeafProto))).1)
+    (h : validate cfg f sg s publisher st u sender = .ok st') :
+    u.proof.length = proofDepthGo enc.length := by
+  obtain ⟨hidx, _, hproof, _⟩ := validate_sound cfg f hI sg s publisher st st' u sender enc hne htotal hroot h
+  have := (merkleNew_proof_length f (enc.map (leafOf cfg.validatorLeafProto)) u.index
+    (by rw [List.length_map]; exact hidx)).2.1
+  rw [List.length_map] at this
+  rw [hproof]; exact this
+
+/-- `processor_safe_over_all_runs` — `processor_total`, `processor_task_counters` and `processor_invariant`
+lifted from one step to EVERY run of the code in /repo: from the empty processor, over any list of events
+— units of any kind from anybody, naming any publisher, and time-outs of any message key, in any order,
+with any task bounds — no unit's outcome is a panic, and at the end the counters count the live
+subprocessors (`TInv`), every stored subprocessor is well-formed (`ProcInv`) and belongs to a publisher
+the scheduler routes (`SubsRoutable`). -/
+theorem processor_safe_over_all_runs [DecidableEq H] (b : Bounds) (f : HashFns H) (rs : RS) (sg : SigScheme H)
+    (id : Bytes) (nodes : List Bytes) (s : Sched) (hs : newScheduler id nodes = .ok s)
+    (hl : RSLaws rs s.k s.c) (evs : List (PEvent H)) :
+    (∀ o ∈ (tprocRunEv b Cfg.current PCfg.current f rs sg s TProc.empty evs).2, o ≠ .panic) ∧
+    TInv (tprocRunEv b Cfg.current PCfg.current f rs sg s TProc.empty evs).1 ∧
+    ProcInv s (tprocRunEv b Cfg.current PCfg.current f rs sg s TProc.empty evs).1.core ∧
+    SubsRoutable s (tprocRunEv b Cfg.current PCfg.current f rs sg s TProc.empty evs).1.core := by
+  obtain ⟨h1, h2, h3⟩ := tprocRunEv_safe b f rs sg id nodes s hs hl evs TProc.empty tinv_empty (procInv_empty s)
+  exact ⟨h3, h1, h2, tprocRunEv_routable b Cfg.current PCfg.current f rs sg s evs TProc.empty (subsRoutable_empty s)⟩
+
+/-- `processor_builds_after_rejected_units` — LIVENESS with the task accounting, after ANY number of
+rejected units (the code in /repo): in any state in which the honest message is new and a task slot is
+free for its publisher, first any sequence of units each REJECTED by the validator of its message key
+(however long; corrupted copies of this message's units or units of any other key, naming any
+publisher), then `k` distinct honest units in any order, each from its designated sender: the first
+`k-1` are stored, the `k`-th builds EXACTLY `msg`, and over the honest run exactly one unit is handed to
+`broadcastUnit`: the publisher's unit for the local index. The rejected units cost the honest message
+nothing — no slot, no poisoned key, no changed outcome. -/
+theorem processor_builds_after_rejected_units [DecidableEq H] (b : Bounds) (f : HashFns H) (rs : RS)
+    (sg : SigScheme H) (id : Bytes) (nodes : List Bytes) (s : Sched) (hs : newScheduler id nodes = .ok s)
+    (C P : Bytes) (hPm : P ∈ nodes) (hP : P ≠ id) (hkey : sg.hasKey P = true)
+    (nonce : Nat) (msg : Bytes) (hl : RSLaws rs s.k s.c) (hin : PadInput msg s.k)
+    (hok : rsNewOk s.k s.c = true) (hsmall : msg.length < 2 ^ 40)
+    (hsig : SigOk f rs sg s C P nonce msg) (tp : TProc H) (hp : ProcInv s tp.core)
+    (hfin : tp.core.finalized.contains (hKey f rs s C P nonce msg) = false)
+    (hnone : tp.core.findSub (hKey f rs s C P nonce msg) = none)
+    (hslot : tp.ptasks P ≠ b.maxPerPublisher ∧ tp.tasks ≠ b.maxWorkers)
+    (garbage : List (PUnit H × Bytes))
+    (hrej : AllRejected b Cfg.current PCfg.current f rs sg s tp garbage)
+    (idxs : List Nat) (hnd : idxs.Nodup) (hlt : ∀ i ∈ idxs, i < s.total) (hlen : idxs.length = s.k) :
+    ∃ li, s.shardIndexFor P = .ok li ∧ li < s.total ∧ ∃ pre bc e,
+      tprocRun b Cfg.current PCfg.current f rs sg s
+          (tprocRunState b Cfg.current PCfg.current f rs sg s tp garbage)
+          (idxs.map (fun i => (honestUnit Cfg.current f rs sg C P nonce msg s.k s.c i, s.sender P i))) =
+        pre ++ [.handled bc (some msg) e] ∧
+      (∀ o ∈ pre, ∃ bb, o = .handled bb none none) ∧
+      (pre ++ [.handled bc (some msg) e]).flatMap ProcOut.bcast =
+        [honestUnit Cfg.current f rs sg C P nonce msg s.k s.c li] :=
+  builds_after_rejected_units b f rs sg id nodes s hs C P hPm hP hkey nonce msg hl hin hok hsmall hsig tp hp
+    hfin hnone hslot garbage hrej idxs hnd hlt hlen
+
+/-- `refusal_classes` — WHY `ProcessMessage` refuses a unit (`createSubprocessor`, the code in /repo):
+exactly five reasons, in the code's order — the publisher is the local peer; the publisher is not in the
+committee; its peer id embeds no public key; the publisher's task bound is reached; the global task bound
+is reached. A refusal changes NOTHING (no subprocessor, no slot, no cache entry), and in every state in
+which stored subprocessors are routable (every reachable one) nothing else is ever refused. -/
+theorem refusal_classes [DecidableEq H] (b : Bounds) (cfg : Cfg) (f : HashFns H) (rs : RS)
+    (sg : SigScheme H) (s : Sched) (tp : TProc H) (u : PUnit H) (sender : Bytes)
+    (hsub : SubsRoutable s tp.core) :
+    (∀ r, refusalOf b PCfg.current sg s tp u = some r →
+      tprocStep b cfg PCfg.current f rs sg s tp u sender = (tp, .noRoute)) ∧
+    (refusalOf b PCfg.current sg s tp u = none →
+      (tprocStep b cfg PCfg.current f rs sg s tp u sender).2 ≠ .noRoute) :=
+  ⟨fun r h => refusal_some_is_noroute b cfg PCfg.current rfl f rs sg s tp u sender r h,
+   fun h => refusal_none_not_noroute b cfg PCfg.current f rs sg s tp u sender (fun st hst => hsub _ st hst) h⟩
+
 /-! ## Non-vacuity: the hypotheses are satisfiable -/
 
 example : Ideal termFns := ideal_termFns
@@ -903,5 +1104,68 @@ example : procRun Cfg.current ⟨true, true, false, true⟩ termFns repCode12 to
   | cons a t =>
     have := congrArg List.length h
     simp [procRun] at this
+
+
+/-! ### Non-vacuity of the round-5 theorems -/
+
+-- the binary search on a committee of 4: a member is found at its index; a non-member is refused at an
+-- insertion position in the middle, before the first and past the last element
+example : binSearch [[1], [3], [5], [7]] [5] = (2, true) ∧ binSearch [[1], [3], [5], [7]] [4] = (2, false) ∧
+    binSearch [[1], [3], [5], [7]] [0] = (0, false) ∧ binSearch [[1], [3], [5], [7]] [9] = (4, false) ∧
+    binSearch [[1], [3], [3], [7]] [3] = (1, true) := by decide
+example : SortedLe [[1], [3], [5], [7]] := by unfold SortedLe; decide
+example : publisherIndexGo [[1], [2], [3]] [2] = .ok 1 ∧ publisherIndexGo [[1], [3]] [2] = .error .publisherUnknown :=
+  ⟨rfl, rfl⟩
+example : sched3.peerForShardGo [2] 1 = .ok [3] ∧ sched3.shardIndexForGo [2] = .ok 0 ∧
+    sched3.shardIndexForGo [9] = .error .publisherUnknown ∧ sched3.shardIndexForGo [1] = .error .selfPublished :=
+  ⟨rfl, rfl, rfl, rfl⟩
+-- bits.Len and nextPowerOfTwo at the boundaries
+example : bitsLen 0 = 0 ∧ bitsLen 1 = 1 ∧ bitsLen 2 = 2 ∧ bitsLen 3 = 2 ∧ bitsLen 4 = 3 ∧ bitsLen 255 = 8 ∧ bitsLen 256 = 9 := by decide
+example : nextPow2Go 0 = 2 ∧ nextPow2Go 1 = 2 ∧ nextPow2Go 2 = 2 ∧ nextPow2Go 3 = 4 ∧ nextPow2Go 4 = 4 ∧ nextPow2Go 5 = 8 ∧
+    nextPow2Go 256 = 256 ∧ nextPow2Go 257 = 512 := by decide
+-- the proof of the only leaf of a one-leaf tree is the empty-leaf sibling
+example : 2 ^ ((merkleNew termFns [[7]]).2.getD 0 []).length = 2 ∧ 1 ≤ ((merkleNew termFns [[7]]).2.getD 0 []).length :=
+  ⟨(merkle_proof_length termFns [[7]] 0 (by decide)).2.1, (merkle_proof_length termFns [[7]] 0 (by decide)).2.2.2⟩
+-- the five refusals (committee {[1],[2],[3]}, receiver [1], bounds 2 / 1)
+example : refusalOf ⟨2, 1⟩ PCfg.current toySig sched3 (TProc.empty : TProc HTerm) ⟨[7], [1], .raw [], [], [1], 0, [[1]], 5⟩ = some .selfPublished ∧
+    refusalOf ⟨2, 1⟩ PCfg.current toySig sched3 (TProc.empty : TProc HTerm) ⟨[7], [9], .raw [], [], [1], 0, [[1]], 5⟩ = some .publisherUnknown ∧
+    refusalOf ⟨2, 1⟩ PCfg.current (⟨fun _ => [1], fun _ _ _ => true, fun _ => false⟩ : SigScheme HTerm) sched3 (TProc.empty : TProc HTerm)
+      ⟨[7], [2], .raw [], [], [1], 0, [[1]], 5⟩ = some .noKey ∧
+    refusalOf ⟨2, 1⟩ PCfg.current toySig sched3 (⟨Proc.empty, 1, fun _ => 1⟩ : TProc HTerm) ⟨[7], [2], .raw [], [], [1], 0, [[1]], 5⟩ = some .publisherTasks ∧
+    refusalOf ⟨2, 1⟩ PCfg.current toySig sched3 (⟨Proc.empty, 2, fun _ => 0⟩ : TProc HTerm) ⟨[7], [2], .raw [], [], [1], 0, [[1]], 5⟩ = some .maxTasks ∧
+    refusalOf ⟨2, 1⟩ PCfg.current toySig sched3 (TProc.empty : TProc HTerm) ⟨[7], [2], .raw [], [], [1], 0, [[1]], 5⟩ = none := by
+  refine ⟨?_, ?_, ?_, ?_, ?_, ?_⟩ <;> rfl
+example : SubsRoutable sched3 (Proc.empty : Proc HTerm) := subsRoutable_empty _
+
+/-- An instantiated run of `processor_builds_after_rejected_units`: committee of 3, bounds 1 / 1; first a
+unit of the honest message sent by the local peer itself (rejected: self-send; it is the FIRST unit of the
+key, so a subprocessor is created and discarded), then the honest unit 1 from its designated sender: `hi`
+is built and unit 0 is broadcast. -/
+example : ∃ li pre bc e, sched3.shardIndexFor [2] = .ok li ∧
+    tprocRun ⟨1, 1⟩ Cfg.current PCfg.current termFns repCode11 toySig sched3
+      (tprocRunState ⟨1, 1⟩ Cfg.current PCfg.current termFns repCode11 toySig sched3 TProc.empty
+        [(honestUnit Cfg.current termFns repCode11 toySig [7] [2] 5 [104, 105] 1 1 0, [1])])
+      [(honestUnit Cfg.current termFns repCode11 toySig [7] [2] 5 [104, 105] 1 1 1, sched3.sender [2] 1)] =
+      pre ++ [.handled bc (some [104, 105]) e] ∧
+    (pre ++ [.handled bc (some [104, 105]) e]).flatMap ProcOut.bcast =
+      [honestUnit Cfg.current termFns repCode11 toySig [7] [2] 5 [104, 105] 1 1 li] := by
+  obtain ⟨li, h1, _, pre, bc, e, h2, _, h3⟩ :=
+    processor_builds_after_rejected_units ⟨1, 1⟩ termFns repCode11 toySig [1] [[3], [1], [2]]
+      sched3 rfl [7] [2] (by decide) (by decide) rfl 5 [104, 105] repCode11_laws
+      (by unfold PadInput; decide) (by decide) (by decide) ⟨by decide, rfl⟩ TProc.empty (procInv_empty _) rfl rfl
+      ⟨by decide, by decide⟩
+      [(honestUnit Cfg.current termFns repCode11 toySig [7] [2] 5 [104, 105] 1 1 0, [1])]
+      ⟨⟨.selfSend, rfl⟩, trivial⟩
+      [1] (by decide) (by decide) rfl
+  exact ⟨li, pre, bc, e, h1, h2, h3⟩
+
+/-- A run over events (a unit, a time-out of its key, the unit again): no panic, counters consistent. -/
+example : (∀ o ∈ (tprocRunEv Bounds.real Cfg.current PCfg.current termFns repCode12 toySig sched4 TProc.empty
+      [.unit (honestUnit Cfg.current termFns repCode12 toySig [7] [2] 5 [104, 105] 1 2 2) (sched4.sender [2] 2),
+       .expire ⟨[7], [2], (treeOf Cfg.current termFns repCode12 [104, 105] 1 2).1, 5⟩,
+       .unit (honestUnit Cfg.current termFns repCode12 toySig [7] [2] 5 [104, 105] 1 2 2) (sched4.sender [2] 2)]).2,
+      o ≠ .panic) :=
+  (processor_safe_over_all_runs Bounds.real termFns repCode12 toySig [1] [[3], [1], [2], [4]] sched4 rfl
+    repCode12_laws _).1
 
 end Juno.C19.Props
